@@ -64,7 +64,7 @@ def run(ctx):
                allow_zero=("Next",))
     # ---------------------------------------------------------------- G (fragmentation scripts)
     behs = ctx.tlc_gen("Chunker", "GenChunker.tla", "GenChunker.cfg" if ctx.quick else "GenChunkerZ2.cfg",
-                       timeout=900)
+                       timeout=1800, workers=4)
     binp = ctx.go_build("chunker", ["chunker/zz_verif_C06_test.go"])
 
     def frag_nontrivial(b):
@@ -105,9 +105,9 @@ def run(ctx):
             "rabin-1397931", "rabin-min:16-avg:32-max:64", "rabin-17-18-2096896", "buzhash"]
     core_dev = ["rabin-30", "rabin-47", "rabin-0", "rabin-7000000000000000000"]
     if ctx.quick:
-        specs = core + ctx.rng.sample(acc, min(4, len(acc))) + core_dev + ctx.rng.sample(rej, min(12, len(rej)))
+        specs = core + ctx.rng.sample(acc, min(3, len(acc))) + core_dev + ctx.rng.sample(rej, min(12, len(rej)))
     else:
-        specs = core + acc + core_dev + devs + ctx.rng.sample(rej, min(80, len(rej)))
+        specs = core + ctx.rng.sample(acc, min(28, len(acc))) + core_dev + devs[:12] + ctx.rng.sample(rej, min(80, len(rej)))
     uniq = []
     for s in specs:
         if s not in uniq:
